@@ -21,7 +21,31 @@ import (
 // c16Decode decodes b as a receiver would: from a buffer that is reused (here:
 // overwritten) as soon as the decoder has returned, so that what the clauses look
 // at is the message the caller is left with.
+// c16OtherEncodings: other chains and messages encoded while an encoding is still on its
+// way to the wire.
+func c16OtherEncodings() {
+	inner := &dhcpv6.Message{MessageType: dhcpv6.MessageTypeSolicit, TransactionID: dhcpv6.TransactionID{9, 9, 9}}
+	inner.AddOption(dhcpv6.OptClientID(&dhcpv6.DUIDLL{HWType: 1, LinkLayerAddr: net.HardwareAddr{2, 9, 9, 9, 9, 9}}))
+	var cur dhcpv6.DHCPv6 = inner
+	for i := 0; i < 3; i++ {
+		r, err := dhcpv6.EncapsulateRelay(cur, dhcpv6.MessageTypeRelayForward, net.ParseIP("2001:db8:9::1"), net.ParseIP("fe80::9"))
+		if err != nil {
+			return
+		}
+		r.AddOption(dhcpv6.OptInterfaceID([]byte("other-chain")))
+		cur = r
+		cur.ToBytes()
+	}
+	inner.ToBytes()
+}
+
 func c16Decode(b []byte) (dhcpv6.DHCPv6, error) {
+	if len(b)%2 == 0 {
+		// the trip over the wire happens LATER: other relay chains are encoded before these
+		// bytes are used (seeded change C16-13: the outermost RelayMessage.ToBytes handing
+		// out a pooled buffer that the next relay encoding overwrites)
+		c16OtherEncodings()
+	}
 	bb := append([]byte{}, b...)
 	d, err := dhcpv6.FromBytes(bb)
 	for i := range bb {
